@@ -1068,11 +1068,8 @@ func checkedAfterStore(pf *parserFacts, fs fieldStore, table string) (string, bo
 		if reachesAvoiding(failSucc, cons, nil, nil) {
 			continue // the failing branch still delivers the entry
 		}
-		if reachesAvoiding(fs.Store.Block(), cons, b, passSucc) && fs.Store.Block() != b {
-			// some way from the store to a use avoids the passing edge of the test
-			if reachesAvoidingFromStore(fs.Store.Block(), cons, b, passSucc) {
-				continue
-			}
+		if fs.Store.Block() != b && reachesAvoidingFromStore(fs.Store.Block(), cons, b, passSucc) {
+			continue // some way from the store to a use avoids the passing edge of the test
 		}
 		return "stored, then tested with " + table + "[entry." + fieldOfAddr(fa).Name() + "] before the entry can be used (the failing branch returns without it)", true
 	}
